@@ -1,7 +1,236 @@
-(** C18 - hazard slots: property theorems (statements only). *)
-From Coq Require Import NArith List Bool.
-Local Open Scope N_scope.
-(** placeholder obligation (the slot allocator model replaces it) *)
-Theorem C18_free_plus_used : forall K used : N, used <= K -> (K - used) + used = K.
-Proof. intros. apply N.sub_add. assumption. Qed.
-Print Assumptions C18_free_plus_used.
+(** C18 - hazard pointer slots: K available, exhaustion reported, slots reusable: property theorems (statements only).
+    Model: Model/HpSlotsDefs.v (run against the compiled hazard_pointer guard_ptrs by tools/hpslots_diff.py);
+    proofs: Proof/HpSlots.v.  All theorems hold for every K >= 1, every number of guards, both strategies and
+    every operation sequence ([run cfg ops] starts in the freshly initialised control block). *)
+From Coq Require Import List Arith Permutation.
+From XV Require Import Model.HpSlotsDefs Proof.HpSlots Model.HeSlotsDefs Proof.HeSlots.
+Import ListNotations.
+
+(** the invariant: free list from [hint] = exactly the slots no guard holds, duplicate free; guards hold distinct
+    slots; a held slot contains the guard's object; held + free = all slots *)
+Theorem C18_slots_invariant : forall cfg ops, 1 <= cK cfg ->
+  let st := snd (run cfg ops) in
+  let fl := free_list (pl st) in
+  let H := held (guards st) in
+  let n := length (slots (pl st)) in
+  chain (slots (pl st)) (hint (pl st)) fl /\
+  NoDup fl /\ (forall i, In i fl <-> i < n /\ ~ In i H) /\
+  NoDup H /\
+  (forall g g' gd gd' i, nth_error (guards st) g = Some gd -> g_hp gd = Some i ->
+                         nth_error (guards st) g' = Some gd' -> g_hp gd' = Some i -> g = g') /\
+  (forall i, In i H -> i < n) /\
+  Permutation (fl ++ H) (seq 0 n) /\ length H + length fl = n /\
+  (forall g gd i, nth_error (guards st) g = Some gd -> g_hp gd = Some i ->
+                  nth_error (slots (pl st)) i = Some (Obj (g_ptr gd)) /\ In (g_ptr gd) (gather (slots (pl st)))) /\
+  (forall g gd, nth_error (guards st) g = Some gd -> g_ptr gd <> 0 -> exists i, g_hp gd = Some i) /\
+  (forall g gd i, nth_error (guards st) g = Some gd -> g_hp gd = Some i -> g_ptr gd <> 0) /\
+  n = cK cfg + list_sum (blocks (pl st)) /\ (cDyn cfg = false -> n = cK cfg) /\
+  length (guards st) = cG cfg.
+Proof. exact slots_invariant. Qed.
+Print Assumptions C18_slots_invariant.
+
+(** static strategy: an operation that needs a new slot succeeds iff fewer than K slots are held, otherwise it
+    reports Exhausted (never Invalid, never "ok without a slot"); on success the guard holds the slot that was
+    the head of the free list and the slot contains the guard's object; on Exhausted the asking guard is empty *)
+Theorem C18_static_alloc_succeeds_iff : forall cfg ops op st0, 1 <= cK cfg -> cDyn cfg = false ->
+  let st := snd (run cfg ops) in
+  alloc_site st op = Some st0 ->
+  let o := outcome_of cfg st op in
+  let st' := state_after cfg st op in
+  (o = Ok <-> held_count st0 < cK cfg) /\
+  (o = Exhausted <-> held_count st0 = cK cfg) /\
+  (o = Ok -> exists i gd, get_g st' (target op) = Some gd /\ g_hp gd = Some i /\
+                          nth_error (slots (pl st')) i = Some (Obj (g_ptr gd)) /\
+                          free_list (pl st0) = i :: free_list (pl st') /\
+                          held_count st' = S (held_count st0)) /\
+  (o = Exhausted -> st' = st0 /\ get_g st' (target op) <> None /\
+                    forall gd, get_g st' (target op) = Some gd -> g_hp gd = None /\ g_ptr gd = 0).
+Proof. exact static_alloc_succeeds_iff. Qed.
+Print Assumptions C18_static_alloc_succeeds_iff.
+
+Theorem C18_no_slot_needed_no_throw : forall cfg ops op, 1 <= cK cfg ->
+  let st := snd (run cfg ops) in
+  alloc_site st op = None -> outcome_of cfg st op <> Exhausted /\ (valid_op cfg op -> outcome_of cfg st op = Ok).
+Proof. exact no_slot_needed_no_throw. Qed.
+Print Assumptions C18_no_slot_needed_no_throw.
+
+(** an Exhausted outcome: only with the static strategy and all K slots held; every other guard keeps slot and
+    pointer and its slot still contains the pointer; the asking guard is empty; after resetting any one holding guard
+    the same operation succeeds *)
+Theorem C18_exhausted_preserves_existing : forall cfg ops op, 1 <= cK cfg ->
+  let st := snd (run cfg ops) in
+  outcome_of cfg st op = Exhausted ->
+  let st' := state_after cfg st op in
+  cDyn cfg = false /\ valid_op cfg op /\
+  (forall g, g <> target op -> get_g st' g = get_g st g) /\
+  (forall g gd i, g <> target op -> get_g st g = Some gd -> g_hp gd = Some i ->
+                  nth_error (slots (pl st')) i = Some (Obj (g_ptr gd))) /\
+  (forall gd, get_g st' (target op) = Some gd -> g_hp gd = None /\ g_ptr gd = 0) /\
+  held_count st' = cK cfg /\
+  (forall h gd, get_g st' h = Some gd -> g_hp gd <> None -> outcome_of cfg (reset_guard st' h) op = Ok).
+Proof. exact exhausted_preserves_existing. Qed.
+Print Assumptions C18_exhausted_preserves_existing.
+
+Theorem C18_reset_returns_slot : forall cfg ops g gd i, 1 <= cK cfg ->
+  let st := snd (run cfg ops) in
+  get_g st g = Some gd -> g_hp gd = Some i ->
+  let st' := state_after cfg st (GReset g) in
+  outcome_of cfg st (GReset g) = Ok /\
+  get_g st' g = Some empty_guard /\ (forall g', g' <> g -> get_g st' g' = get_g st g') /\
+  free_list (pl st') = i :: free_list (pl st) /\
+  held_count st' + 1 = held_count st /\
+  (exists p, p_alloc cfg (pl st') = AOk i p).
+Proof. exact reset_returns_slot. Qed.
+Print Assumptions C18_reset_returns_slot.
+
+Theorem C18_move_transfers_slot : forall cfg ops op dst src dd sd, 1 <= cK cfg ->
+  let st := snd (run cfg ops) in
+  op = GMoveCtor dst src \/ op = GMoveAssign dst src -> dst <> src ->
+  get_g st dst = Some dd -> get_g st src = Some sd ->
+  let st' := state_after cfg st op in
+  outcome_of cfg st op = Ok /\
+  get_g st' dst = Some sd /\ get_g st' src = Some empty_guard /\
+  (forall g, g <> dst -> g <> src -> get_g st' g = get_g st g) /\
+  free_list (pl st') = hpl dd ++ free_list (pl st) /\
+  held_count st' + length (hpl dd) = held_count st.
+Proof. exact move_transfers_slot. Qed.
+Print Assumptions C18_move_transfers_slot.
+
+Theorem C18_copy_takes_new_slot : forall cfg ops dst src dd sd i, 1 <= cK cfg ->
+  let st := snd (run cfg ops) in
+  dst <> src -> get_g st dst = Some dd -> get_g st src = Some sd -> g_hp sd = Some i -> g_ptr sd <> 0 ->
+  let st0 := reset_guard st dst in
+  let st' := state_after cfg st (GCopyCtor dst src) in
+  alloc_site st (GCopyCtor dst src) = Some st0 /\
+  (outcome_of cfg st (GCopyCtor dst src) = Ok ->
+   exists j, get_g st' dst = Some {| g_hp := Some j; g_ptr := g_ptr sd; g_mark := g_mark sd |} /\
+             j <> i /\ ~ In j (held (guards st0)) /\
+             get_g st' src = Some sd /\
+             nth_error (slots (pl st')) j = Some (Obj (g_ptr sd)) /\
+             nth_error (slots (pl st')) i = Some (Obj (g_ptr sd)) /\
+             held_count st' = S (held_count st0)).
+Proof. exact copy_takes_new_slot. Qed.
+Print Assumptions C18_copy_takes_new_slot.
+
+Theorem C18_no_leak : forall cfg ops, 1 <= cK cfg ->
+  let st := snd (run cfg ops) in
+  let st' := snd (run_from cfg st (reset_all cfg)) in
+  held (guards st') = [] /\
+  length (slots (pl st')) = length (slots (pl st)) /\
+  Permutation (free_list (pl st')) (seq 0 (length (slots (pl st')))) /\
+  length (free_list (pl st')) = length (slots (pl st)).
+Proof. exact no_leak. Qed.
+Print Assumptions C18_no_leak.
+
+Theorem C18_repeated_acquire_release : forall cfg ops g v m n, 1 <= cK cfg -> v <> 0 ->
+  let st := snd (run cfg ops) in
+  get_g st g = Some empty_guard -> cDyn cfg = true \/ held_count st < cK cfg ->
+  Forall (fun o => o_res o = Ok) (fst (run_from cfg st (concat (repeat [GAcquire g v m; GReset g] n)))).
+Proof. exact repeated_acquire_release. Qed.
+Print Assumptions C18_repeated_acquire_release.
+
+Theorem C18_dynamic_never_exhausted : forall cfg ops, 1 <= cK cfg -> cDyn cfg = true ->
+  Forall (fun o => o_res o <> Exhausted) (fst (run cfg ops)) /\
+  (Forall (valid_op cfg) ops -> Forall (fun o => o_res o = Ok) (fst (run cfg ops))).
+Proof. exact dynamic_never_exhausted. Qed.
+Print Assumptions C18_dynamic_never_exhausted.
+
+(** K PROTECTING guards are available (repaired code: a guard on a null / marked null pointer holds no slot):
+    with the static strategy an operation throws only if all K slots are held by guards whose pointer is non-null *)
+Theorem C18_K_protecting_guards : forall cfg ops op, 1 <= cK cfg ->
+  let st := snd (run cfg ops) in
+  outcome_of cfg st op = Exhausted ->
+  let st' := state_after cfg st op in
+  cDyn cfg = false /\
+  protecting_count st' = cK cfg /\ held_count st' = cK cfg /\
+  (forall s, s < cK cfg -> exists g gd, get_g st' g = Some gd /\ g_hp gd = Some s /\ g_ptr gd <> 0 /\
+                                        nth_error (slots (pl st')) s = Some (Obj (g_ptr gd))) /\
+  (forall g gd, get_g st' g = Some gd -> g_ptr gd = 0 -> g_hp gd = None) /\
+  (forall g, g <> target op -> get_g st' g = get_g st g).
+Proof. exact K_protecting_guards. Qed.
+Print Assumptions C18_K_protecting_guards.
+
+(** the allocation theorem counted in protecting guards (guards whose pointer is non-null) *)
+Theorem C18_static_alloc_succeeds_iff_protecting : forall cfg ops op st0, 1 <= cK cfg -> cDyn cfg = false ->
+  let st := snd (run cfg ops) in
+  alloc_site st op = Some st0 ->
+  (outcome_of cfg st op = Ok <-> protecting_count st0 < cK cfg) /\
+  (outcome_of cfg st op = Exhausted <-> protecting_count st0 = cK cfg).
+Proof. exact static_alloc_succeeds_iff_protecting. Qed.
+Print Assumptions C18_static_alloc_succeeds_iff_protecting.
+
+(** * hazard_eras (Model/HeSlotsDefs.v, Proof/HeSlots.v): same pool, reference counted shared slots *)
+
+Theorem C18_he_slots_invariant : forall cfg ops, 1 <= cK cfg ->
+  let st := snd (h_run cfg ops) in
+  let fl := free_list (hpool st) in
+  let H := held (h_guards st) in
+  let n := length (slots (hpool st)) in
+  chain (slots (hpool st)) (hint (hpool st)) fl /\ NoDup fl /\
+  (forall i, In i fl <-> i < n /\ ~ In i H) /\
+  (forall i, In i H -> i < n) /\
+  (forall s, In s H -> exists e, nth_error (slots (hpool st)) s = Some (Obj (e, count_occ Nat.eq_dec H s))) /\
+  Permutation (fl ++ used (h_guards st)) (seq 0 n) /\ length (used (h_guards st)) + length fl = n /\
+  (forall l, h_last st = Some l -> In l H) /\
+  n = cK cfg + list_sum (blocks (hpool st)) /\ (cDyn cfg = false -> n = cK cfg) /\
+  length (h_guards st) = cG cfg.
+Proof. exact he_slots_invariant. Qed.
+Print Assumptions C18_he_slots_invariant.
+
+Theorem C18_he_never_invalid : forall cfg ops, 1 <= cK cfg -> Forall (valid_hop cfg) ops ->
+  Forall (fun o => ho_res o <> Invalid) (fst (h_run cfg ops)).
+Proof. exact he_never_invalid. Qed.
+Print Assumptions C18_he_never_invalid.
+
+Theorem C18_he_exhausted_preserves_existing : forall cfg ops op, 1 <= cK cfg ->
+  let st := snd (h_run cfg ops) in
+  h_outcome_of cfg st op = Exhausted ->
+  let st' := h_state_after cfg st op in
+  cDyn cfg = false /\ free_list (hpool st') = [] /\ length (used (h_guards st')) = cK cfg /\
+  (forall g', h_target op <> g' -> h_get st' g' = h_get st g') /\
+  (exists gd', h_get st' (h_target op) = Some gd' /\ g_hp gd' = None) /\
+  HFacts cfg st'.
+Proof. exact he_exhausted_preserves_existing. Qed.
+Print Assumptions C18_he_exhausted_preserves_existing.
+
+Theorem C18_he_dynamic_never_exhausted : forall cfg ops, 1 <= cK cfg -> cDyn cfg = true ->
+  Forall (fun o => ho_res o <> Exhausted) (fst (h_run cfg ops)).
+Proof. exact he_dynamic_never_exhausted. Qed.
+Print Assumptions C18_he_dynamic_never_exhausted.
+
+Theorem C18_he_no_leak : forall cfg ops, 1 <= cK cfg ->
+  let st := snd (h_run cfg ops) in
+  let st' := snd (h_run_from cfg st (h_reset_ops cfg)) in
+  held (h_guards st') = [] /\ h_last st' = None /\
+  length (slots (hpool st')) = length (slots (hpool st)) /\
+  Permutation (free_list (hpool st')) (seq 0 (length (slots (hpool st')))) /\
+  length (free_list (hpool st')) = length (slots (hpool st)).
+Proof. exact he_no_leak. Qed.
+Print Assumptions C18_he_no_leak.
+
+(** a guard has an era iff its pointer is non-null *)
+Theorem C18_he_pointer_iff_era : forall cfg ops g gd, h_get (snd (h_run cfg ops)) g = Some gd ->
+  (g_hp gd = None <-> g_ptr gd = 0).
+Proof. exact he_pointer_iff_era. Qed.
+Print Assumptions C18_he_pointer_iff_era.
+
+(** (repaired code) after Exhausted the asking guard has no era and a null pointer, all other guards are unchanged *)
+Theorem C18_he_exhausted_leaves_guard_empty : forall cfg ops op, 1 <= cK cfg ->
+  let st := snd (h_run cfg ops) in
+  h_outcome_of cfg st op = Exhausted ->
+  let st' := h_state_after cfg st op in
+  (exists gd', h_get st' (h_target op) = Some gd' /\ g_hp gd' = None /\ g_ptr gd' = 0) /\
+  (forall g', h_target op <> g' -> h_get st' g' = h_get st g').
+Proof. exact he_exhausted_leaves_guard_empty. Qed.
+Print Assumptions C18_he_exhausted_leaves_guard_empty.
+
+(** (repaired code) an operation throws only if every one of the K slots is referenced by a guard with a non-null pointer *)
+Theorem C18_he_K_protecting_guards : forall cfg ops op, 1 <= cK cfg ->
+  let st := snd (h_run cfg ops) in
+  h_outcome_of cfg st op = Exhausted ->
+  let st' := h_state_after cfg st op in
+  cDyn cfg = false /\ length (used (h_guards st')) = cK cfg /\
+  (forall s, s < cK cfg -> exists g gd, h_get st' g = Some gd /\ g_hp gd = Some s /\ g_ptr gd <> 0) /\
+  (forall g gd, h_get st' g = Some gd -> g_ptr gd = 0 -> g_hp gd = None).
+Proof. exact he_K_protecting_guards. Qed.
+Print Assumptions C18_he_K_protecting_guards.
